@@ -7,7 +7,9 @@
    [keyf] is the grouping key of a row (value_json of its category values / of its join expression value): the
    structural theorems hold for ANY key function; the key theorems say what equality of value_json keys means. *)
 From Coq Require Import Permutation Sorted.
+From Coq Require Import SpecFloat.
 From BS Require Import Model.Base Model.Num Model.Compare Model.Json Model.Data Proofs.C11 Proofs.C14b Proofs.C19.
+From BS Require Import Proofs.FloatRound Proofs.C19Float.
 Local Open Scope Z_scope.
 
 (* ---- dataFilter: exactly the rows whose expression is truthy, in order (the rows themselves: the result is a sub-list) *)
@@ -93,14 +95,109 @@ Theorem C19_measure_max : forall tz v t, one_kind (v :: t) ->
   py_max_loop v t = Some (math_max tz (v :: t)) /\ py_min_loop v t = Some (math_min tz (v :: t)).
 Proof. intros tz v t K. split; [apply py_max_is_math_max|apply py_min_is_math_min]; exact K. Qed.
 Print Assumptions C19_measure_max.
-(* full statement wanted for average / stddev: the result is the binary64 nearest to the exact rational mean / to the square
-   root of the exact population variance.  Proved here: nothing beyond the definitions [agg_average] (= Num.ratio_to_sf of the
-   exact dyadic sum over the count) and [agg_stddev] (= the exact variance as a fraction, compared by [sqrt_is]); both are tied to
-   the implementation by the correspondence (exact comparison, no tolerance) and to Fraction arithmetic by the direct oracle. *)
-Theorem C19_measure_average_partial : forall vs ds, dyadics vs = Some ds -> forallb is_int_num vs = false ->
-  agg_average vs = Some (CNum (NFlt (ratio_to_sf (zsum (scaled (min_exp ds) ds) <? 0) (Z.abs (zsum (scaled (min_exp ds) ds)))
-                                                 (Z.of_nat (length vs) * 2 ^ (- min_exp ds))))).
-Proof. intros vs ds H N. unfold agg_average. rewrite H, N. reflexivity. Qed.
+(* ---- average / stddev against exact rational arithmetic (Proofs/FloatRound.v, Proofs/C19Float.v: Z only, no real numbers).
+   Every value of the class is decoded exactly as (an integer) * 2^(its exponent) ([dyadics]); with E the least exponent (E <= 0),
+   S the sum of the values in units of 2^E, n the count:   exact mean = S / den,   den = n * 2^(-E).
+   Binary64 numbers are written scaled by 2^1074, which makes each an integer: [sfZs f] = f * 2^1074 (0 for inf / NaN);
+   [valid_binary prec emax] is the standard library's "is a binary64 datum" (53-bit canonical mantissa, exponent range).
+
+   average.  All-int data with an integral mean stay an int (exact).  Otherwise the result is a float f which is
+     - +-infinity exactly when |mean| >= 2^1024 - 2^970 (the largest binary64 plus half an ulp), and otherwise
+     - a binary64 +-m * 2^e (zero when m = 0) with |mean - f| <= 2^e / 2, a tie only when m is even, canonical
+       (m < 2^52 only at e = -1074), and at a power of two (m = 2^52, where the spacing below is half as wide) mean >= f - 2^e / 4;
+     - NEAREST: no binary64 number g is closer to the exact mean than f.   Whole range: subnormal, normal, overflow. *)
+Theorem C19_measure_average : forall vs ds, dyadics vs = Some ds -> vs <> [] ->
+  let n := Z.of_nat (length vs) in
+  let E := min_exp ds in
+  let S := zsum (scaled E ds) in
+  let den := n * 2 ^ (- E) in
+  Forall2 (fun v d => exists x, as_pynum v = Some x /\ num_dyadic x = Some d) vs ds /\
+  E <= 0 /\ (forall d, In d ds -> E <= snd d) /\ 0 < den /\
+  ((forallb is_int_num vs = true /\ S mod n = 0 /\ E = 0 /\ agg_average vs = Some (CNum (NInt (S / n)))) \/
+   ((forallb is_int_num vs = false \/ S mod n <> 0) /\
+    exists f, agg_average vs = Some (CNum (NFlt f)) /\
+      ((2 ^ 1024 - 2 ^ 970) * den <= Z.abs S -> f = S754_infinity (S <? 0)) /\
+      (Z.abs S < (2 ^ 1024 - 2 ^ 970) * den ->
+         valid_binary prec emax f = true /\
+         (exists m e,
+            (0 <= m < 2 ^ 53 /\ -1074 <= e /\ (m < 2 ^ 52 -> e = -1074) /\
+             2 * Z.abs (Z.abs S * 2 ^ 1074 - m * 2 ^ (e + 1074) * den) <= 2 ^ (e + 1074) * den /\
+             (2 * Z.abs (Z.abs S * 2 ^ 1074 - m * 2 ^ (e + 1074) * den) = 2 ^ (e + 1074) * den -> Z.even m = true) /\
+             (m = 2 ^ 52 -> -1074 < e -> 4 * (m * 2 ^ (e + 1074) * den - Z.abs S * 2 ^ 1074) <= 2 ^ (e + 1074) * den)) /\
+            e <= 971 /\
+            f = if m =? 0 then S754_zero (S <? 0) else S754_finite (S <? 0) (Z.to_pos m) e) /\
+         forall g, valid_binary prec emax g = true ->
+           Z.abs (S * 2 ^ 1074 - sfZs f * den) <= Z.abs (S * 2 ^ 1074 - sfZs g * den)))).
+Proof. exact agg_average_spec. Qed.
+Print Assumptions C19_measure_average.
+
+(* the same about [ratio_to_sf] itself (Model/Num.v: float(Fraction), true division of ints, the decimal-to-binary conversion):
+   for 0 < a, 0 < b it returns the binary64 nearest to a/b, ties to even; infinity exactly from 2^1024 - 2^970 on *)
+Theorem C19_ratio_to_sf_nearest : forall neg a b, 0 < a -> 0 < b ->
+  ((2 ^ 1024 - 2 ^ 970) * b <= a -> ratio_to_sf neg a b = S754_infinity neg) /\
+  (a < (2 ^ 1024 - 2 ^ 970) * b ->
+     valid_binary prec emax (ratio_to_sf neg a b) = true /\
+     (exists m e,
+        (0 <= m < 2 ^ 53 /\ -1074 <= e /\ (m < 2 ^ 52 -> e = -1074) /\
+         2 * Z.abs (a * 2 ^ 1074 - m * 2 ^ (e + 1074) * b) <= 2 ^ (e + 1074) * b /\
+         (2 * Z.abs (a * 2 ^ 1074 - m * 2 ^ (e + 1074) * b) = 2 ^ (e + 1074) * b -> Z.even m = true) /\
+         (m = 2 ^ 52 -> -1074 < e -> 4 * (m * 2 ^ (e + 1074) * b - a * 2 ^ 1074) <= 2 ^ (e + 1074) * b)) /\
+        e <= 971 /\ (b <= a * 2 ^ 1022 -> 2 ^ 52 <= m) /\
+        ratio_to_sf neg a b = if m =? 0 then S754_zero neg else S754_finite neg (Z.to_pos m) e) /\
+     forall g, valid_binary prec emax g = true ->
+       Z.abs ((if neg then - a else a) * 2 ^ 1074 - sfZs (ratio_to_sf neg a b) * b) <=
+       Z.abs ((if neg then - a else a) * 2 ^ 1074 - sfZs g * b)).
+Proof. exact ratio_to_sf_nearest_full. Qed.
+Print Assumptions C19_ratio_to_sf_nearest.
+
+(* stddev.  The model's cell is the exact population variance  V / D  (V = n * sum a^2 - (sum a)^2 >= 0 in units of 2^(2E),
+   D = n^2 * 2^(-2E) > 0) and the check tests the implementation's float x with [sqrt_is x V D].  What the test MEANS, for a
+   binary64 x: x is +-0 and V = 0, or x = m * 2^e > 0 and
+        (x - ulp/2)^2 <= V / D <= (x + ulp/2)^2         (ulp = 2^e),
+   written with F = x * 2^1074, U = 2^e * 2^1074:   (2F - U)^2 D <= V 2^2150 <= (2F + U)^2 D;
+   i.e. sqrt(V/D) lies within half an ulp of x.  (At m = 2^52 the spacing below x is ulp/2, so the lower end accepts the
+   neighbour below as well: the test is the half-ulp bracket, not "nearest among all", there.) *)
+Theorem C19_measure_stddev : forall vs ds, dyadics vs = Some ds -> vs <> [] ->
+  let n := Z.of_nat (length vs) in
+  let E := min_exp ds in
+  let a := scaled E ds in
+  let V := n * zsum (map (fun x => x * x) a) - zsum a * zsum a in
+  E <= 0 /\ (forall d, In d ds -> E <= snd d) /\ 0 <= V /\ 0 < n * n * 2 ^ (- 2 * E) /\
+  agg_stddev vs = Some (ASqrt V (n * n * 2 ^ (- 2 * E))).
+Proof. exact agg_stddev_spec. Qed.
+Print Assumptions C19_measure_stddev.
+Theorem C19_measure_stddev_meaning : forall x num den, valid_binary prec emax x = true ->
+  (sqrt_is x num den = true <->
+   match x with
+   | S754_zero _ => num = 0
+   | S754_finite s m e =>
+       s = false /\
+       (2 * (Zpos m * 2 ^ (e + 1074)) - 2 ^ (e + 1074)) ^ 2 * den <= num * 2 ^ 2150 <=
+       (2 * (Zpos m * 2 ^ (e + 1074)) + 2 ^ (e + 1074)) ^ 2 * den
+   | _ => False
+   end).
+Proof. exact sqrt_is_meaning. Qed.
+Print Assumptions C19_measure_stddev_meaning.
+(* ... and the bracket singles out the NEAREST float: for an accepted x = m 2^e > 0 and any other binary64 g >= 0 the midpoint
+   (x + g)/2 lies on the far side of sqrt(V/D) — g > x: V/D <= ((x+g)/2)^2;  g < x: ((x+g)/2)^2 <= V/D — so x is at least as close
+   to the square root as g (and a negative g is farther than 0).  No square roots, no reals: F = x 2^1074, G = g 2^1074.
+   Excluded (`_off_binade_boundary`): m = 2^52 above the subnormal range, where the float below x is only ulp/2 away and the
+   bracket — the model's test — accepts it too. *)
+Theorem C19_measure_stddev_nearest_off_binade_boundary : forall m e num den g, 0 < den ->
+  valid_binary prec emax (S754_finite false m e) = true -> (Zpos m <> 2 ^ 52 \/ e = -1074) ->
+  sqrt_is (S754_finite false m e) num den = true ->
+  valid_binary prec emax g = true -> 0 <= sfZs g ->
+  let F := sfZs (S754_finite false m e) in let G := sfZs g in
+  (F < G -> num * 2 ^ 2150 <= (F + G) ^ 2 * den) /\ (G < F -> (F + G) ^ 2 * den <= num * 2 ^ 2150).
+Proof. exact sqrt_is_nearest. Qed.
+Print Assumptions C19_measure_stddev_nearest_off_binade_boundary.
+(* non-vacuity: 0.1, 0.2 and the int 4 — mean 43/30 up to the representation error of the inputs, variance bracket met by pstdev's float *)
+Example C19_measure_average_example :
+  let vs := [CNum (NFlt (S754_finite false 7205759403792794 (-56))); CNum (NFlt (S754_finite false 7205759403792794 (-55))); CNum (NInt 4)] in
+  agg_average vs = Some (CNum (NFlt (S754_finite false 6455159465897711 (-52)))) /\
+  (exists V D, agg_stddev vs = Some (ASqrt V D) /\ sqrt_is (S754_finite false 8175683925480951 (-52)) V D = true /\
+               sqrt_is (S754_finite false 8175683925480952 (-52)) V D = false).
+Proof. split; [vm_compute; reflexivity|]. eexists. eexists. split; [vm_compute; reflexivity|]. split; vm_compute; reflexivity. Qed.
 
 (* ---- dataJoin *)
 (* the renaming map is always computed (the `while` loop terminates within |left names| + |right names| + 1 steps), has one
